@@ -304,3 +304,61 @@ def feq(a: float, b: float) -> bool:
     if isinstance(a, float) and isinstance(b, float) and math.isnan(a) and math.isnan(b):
         return True
     return a == b
+
+
+# ---------------------------------------------------------------------------------------
+# line-level yield injection (sys.monitoring): a thread switch is offered at statement starts of
+# the given code objects, so that worker threads running them genuinely interleave
+# ---------------------------------------------------------------------------------------
+def nested_codes(fn_or_code):
+    """The code object of a function and of every function / comprehension nested inside it."""
+    import types
+    c = getattr(fn_or_code, "__code__", fn_or_code)
+    out, stack = [], [c]
+    while stack:
+        x = stack.pop()
+        out.append(x)
+        for k in x.co_consts:
+            if isinstance(k, types.CodeType):
+                stack.append(k)
+    return out
+
+
+@contextlib.contextmanager
+def line_yields(codes, prob=0.3, seed=0, tool=4, name="verif-yield"):
+    import random as _r
+    import sys as _s
+    import time as _t
+
+    mon = getattr(_s, "monitoring", None)
+    counter = [0]
+    if mon is None:
+        yield counter
+        return
+    rng = _r.Random(seed)
+
+    def on_line(code, line):
+        if rng.random() < prob:
+            counter[0] += 1
+            _t.sleep(0)
+
+    try:
+        mon.use_tool_id(tool, name)
+    except ValueError:
+        pass
+    mon.register_callback(tool, mon.events.LINE, on_line)
+    for c in codes:
+        mon.set_local_events(tool, c, mon.events.LINE)
+    try:
+        yield counter
+    finally:
+        for c in codes:
+            try:
+                mon.set_local_events(tool, c, 0)
+            except Exception:
+                pass
+        mon.register_callback(tool, mon.events.LINE, None)
+        try:
+            mon.free_tool_id(tool)
+        except Exception:
+            pass
